@@ -89,7 +89,7 @@ class CollationManager(context_class_base):
     """
     lc_collate: Union[None, str, tuple[Optional[str], Optional[str]]]
     fallback: bool = False
-    _current_lc_collate: Optional[tuple[Optional[str], Optional[str]]] = None
+    _current_lc_collate: Optional[str] = None
 
     def __init__(self,
                  collation: Optional[str],
@@ -144,7 +144,7 @@ class CollationManager(context_class_base):
         if self.lc_collate is not None:
             # Only one locale set can be used at a time
             _locale_collate_lock.acquire()
-            self._current_lc_collate = locale.getlocale(locale.LC_COLLATE)
+            self._current_lc_collate = locale.setlocale(locale.LC_COLLATE, None)
 
             try:
                 try:
